@@ -12,6 +12,7 @@ R: the real compiler's bytecode (after RemoveDuplicates) is the artefact TLC che
 import json
 
 import largelib
+import vmabortlib
 import semlib
 import vlib
 
@@ -112,7 +113,10 @@ def run(ck):
                  "g := func(y) { z := y + p; return z }; return g(1)", "x := p; if x > 0 { y := x; x = y + 1 }; return x"):
         extra.append({"src": "f := func(p) { %s }\nh := copy(f)\nr := [f(1), h(1), copy(h)(2)]\nm := copy({k: f})\nr2 := m.k(3)\n" % body, "tag": "copied-function", "valid": True})
     for src in ("if true { return 1 }", "for { return }", "for x in [1] { if x { return x } }", "x := 1\nif x { return }\nx = 2", "if true { break }", "if true { continue }",
-                "f := func() { for { g := func() { break } } }", "for { f := func() { continue }; break }"):
+                "f := func() { for { g := func() { break } } }", "for { f := func() { continue }; break }",
+                # more values than targets / more targets than values: every surplus value would stay on the operand stack
+                "a := 1, 2", "x := 0\nx = 1, 2", "x := 0\nfor i := 0; i < 3; i++ { x = i, i + 1 }", "a, b := 1, 2", "a, b := 1", "x := 0\ny := 0\nx, y = 1, 2",
+                "f := func() { a := 1, 2, 3; return a }", "x := [0]\nx[0] = 1, 2", "x := 0\nx += 1, 2"):
         extra.append({"src": src + "\n", "tag": "must-not-compile", "valid": False})
     # the same builtin module imported more than once, after constants that are merged (constant references are renumbered)
     for src in ("a := 7\nb := 7\nm1 := import(\"math\")\nm2 := import(\"math\")\nr := m1.abs(-a) + m2.abs(-b)",
@@ -148,6 +152,8 @@ def run(ck):
                 json.dumps(r.get("mismatches") or r.get("err") or r)[:300], e["src"]), {"program": e, "real": r})
         else:
             ck.traces += 1
+    # a VM aborted inside calls / with operands pending and run again starts on a clean machine
+    vmabortlib.judge(ck)
     # functions beyond 64 KiB and pools beyond 255 constants: structure checked by the harness, behaviour by a closed form
     largelib.judge(ck, quick)
     ck.extra.update({"programs": len(progs), "functions": nfn, "vm_steps_checked": steps, "variable_instruction_families": fam})
